@@ -21,7 +21,9 @@ for pid in ALL:
     if m is None or not hasattr(m, "MANIFEST") or pid not in READY:
         na.append({"property_id": pid, "reason": PENDING_REASON})
         continue
-    M = m.MANIFEST
+    M = dict(m.MANIFEST)
+    if getattr(m, "MANIFEST_ADDENDUM", ""):
+        M["text"] = M["text"].rstrip() + " " + m.MANIFEST_ADDENDUM
     checks.append({
         "property_id": pid,
         "quick_cmd": f"./check {pid} --tier quick",
